@@ -51,6 +51,8 @@ type etype =
 | EU64
 | EI64
 
+val etype_eqb : etype -> etype -> bool
+
 type section =
 | SInts of etype * coq_Z list
 | SF64 of coq_Z list
